@@ -423,6 +423,119 @@ def _run_u(case):
     return fails
 
 
+# ------------------------------------------------------------------------------------------ approximate conditionals / truncated
+_AOPS = ["marginal", "joint", "conditional", "log_conditional", "log_conditional_y", "het_bound"]
+
+
+def _pool_a(tier):
+    # (Dx, Dy, Dk, n)
+    base = [(1, 1, 1, 2), (2, 2, 2, 3), (1, 2, 2, 4), (2, 1, 1, 2), (2, 2, 1, 5), (1, 1, 2, 3)]
+    if tier == "thorough":
+        base += [(3, 2, 1, 3), (2, 3, 2, 2), (1, 3, 3, 6), (3, 1, 1, 4)]
+    return base
+
+
+def _strategy_a(shapes):
+    @st.composite
+    def s(draw):
+        Dx, Dy, Dk, n = draw(st.sampled_from(shapes))
+        fam = draw(st.sampled_from(["feature", "het", "truncated"]))
+        case = {"fam": fam, "Dx": Dx, "Dy": Dy, "Dk": Dk, "n": n, "idx": _idx(draw, n)}
+        if fam == "feature":
+            kind = draw(st.sampled_from(gen.FEATURE_KINDS))
+            case.update({"kind": kind, "op": draw(st.sampled_from(_AOPS[:5])), "c": draw(gen.feature_params(kind, Dx, Dy, Dk))})
+        elif fam == "het":
+            kind = draw(st.sampled_from(gen.HET_KINDS))
+            case.update({"kind": kind, "op": draw(st.sampled_from(["marginal", "joint", "conditional", "het_bound"])),
+                         "c": draw(gen.het_params(kind, Dx, Dy, max(Dy, Dk), Dk, wscale=draw(st.sampled_from([0.3, 1.0]))))})
+        else:
+            case.update({"kind": "truncated", "op": draw(st.sampled_from(["1", "x", "x**2", "x**k", "evaluate", "density_mean"])),
+                         "k": draw(st.integers(0, 5)),
+                         "Lambda": draw(gen.arr((n, 1, 1), 0.3, 4.0)), "nu": draw(gen.arr((n, 1), -2, 2)), "ln_beta": draw(gen.arr((n,), -1, 1)),
+                         "lo": draw(gen.arr((n, 1), -2.0, 0.0)), "width": draw(gen.arr((n, 1), 0.2, 3.0)),
+                         "one_sided": draw(st.sampled_from(["no", "lower", "upper"])), "xs": draw(gen.arr((3, 1), -3, 3))})
+            return case
+        case["px"] = {"Sigma": draw(gen.spd(n, Dx, kappa=6.0, lam_lo=0.2, lam_hi=0.5)), "mu": draw(gen.arr((n, Dx), -1.5, 1.5))}
+        case["q"] = {"Sigma": draw(gen.spd(n, Dx + Dy, kappa=6.0, lam_lo=0.2, lam_hi=0.5)), "mu": draw(gen.arr((n, Dx + Dy), -1.5, 1.5))}
+        case["yn"] = draw(gen.arr((n, Dy), -2, 2))
+        return case
+    return s()
+
+
+def _run_a(case):
+    from .. import libx, objcmp
+    from ..libx import J
+    import jax.numpy as jnp
+
+    fails = []
+    idx, n, op = case["idx"], case["n"], case["op"]
+    ii = np.array(idx)
+    if case["fam"] == "truncated":
+        from gaussian_toolbox import measure
+        from gaussian_toolbox.experimental import truncated_measure as tm
+
+        Lam, nu, lb = (np.asarray(case[k], float) for k in ("Lambda", "nu", "ln_beta"))
+        lo = np.asarray(case["lo"], float)
+        hi = lo + np.asarray(case["width"], float)
+
+        def build(sel):
+            m = measure.GaussianMeasure(Lambda=J(Lam[sel]), nu=J(nu[sel]), ln_beta=J(lb[sel]))
+            kw = {}
+            if case["one_sided"] != "upper":
+                kw["lower_limit"] = J(lo[sel])
+            if case["one_sided"] != "lower":
+                kw["upper_limit"] = J(hi[sel])
+            return tm.TruncatedGaussianMeasure(measure=m, **kw)
+
+        def run(t):
+            if op == "evaluate":
+                return t(J(case["xs"]))
+            if op == "density_mean":
+                d = t.get_density()
+                return jnp.concatenate([d.get_mean(), d.get_variance()], axis=1)
+            if op == "x**k":
+                return t.integrate("x**k", k=case["k"])
+            return t.integrate(op)
+
+        tag = f"truncated.{op}"
+        ok, ra, rb = objcmp.both(fails, tag, lambda: run(build(np.arange(n))), lambda: run(build(ii)))
+        if ok:
+            objcmp.compare(fails, tag, np.asarray(ra)[ii], rb, 10.0)
+        return fails
+    het = case["fam"] == "het"
+    ok, c = lib(fails, "construct_approx", (libx.make_het if het else libx.make_feature), case["c"])
+    ok2, px = lib(fails, "construct_px", libx.make_measure, "pdf", case["px"])
+    ok3, q = lib(fails, "construct_q", libx.make_measure, "pdf", case["q"])
+    if not (ok and ok2 and ok3):
+        return fails
+    pxs, qs = px.slice(jnp.array(idx)), q.slice(jnp.array(idx))
+    yn = np.asarray(case["yn"], float)
+    kap = _kap(np.asarray(case["px"]["Sigma"], float)) * 10
+    tag = f"{'het' if het else case['kind']}.{op}"
+    if op == "marginal":
+        fa, fb = (lambda: c.affine_marginal_transformation(px)), (lambda: c.affine_marginal_transformation(pxs))
+    elif op == "joint":
+        fa, fb = (lambda: c.affine_joint_transformation(px)), (lambda: c.affine_joint_transformation(pxs))
+    elif op == "conditional":
+        fa, fb = (lambda: c.affine_conditional_transformation(px)), (lambda: c.affine_conditional_transformation(pxs))
+    elif op == "log_conditional":
+        fa, fb = (lambda: c.integrate_log_conditional(q)), (lambda: c.integrate_log_conditional(qs))
+        kap = _kap(np.asarray(case["q"]["Sigma"], float)) * 10
+    elif op == "log_conditional_y":
+        fa, fb = (lambda: c.integrate_log_conditional_y(px, y=J(yn))), (lambda: c.integrate_log_conditional_y(pxs, y=J(yn[ii])))
+    elif op == "het_bound":
+        fa, fb = (lambda: c.integrate_log_conditional_y(px, J(yn))), (lambda: c.integrate_log_conditional_y(pxs, J(yn[ii])))
+    else:
+        raise KeyError(op)
+    ok, ra, rb = objcmp.both(fails, tag, fa, fb)
+    if ok:
+        ok, ras = lib(fails, tag + ".slice_result", lambda: _take(ra, idx))
+        if ok:
+            # the variational bound stops its fixed-point iteration on a batch-wide criterion (1e-5): compared at 1e-6
+            objcmp.compare(fails, tag, ras, rb, kap, tol=1e-6 if op == "het_bound" else 1e-8)
+    return fails
+
+
 SUBS = [
     Sub("measure_ops", _pool_m, _strategy_m, _run_m, lambda c: _nontriv_idx(c["R"], c["idx"]),
         lambda c: [f"kind={c['kind']}", f"op={c['op']}"] + _labels_idx(c["R"], c["idx"]),
@@ -433,6 +546,9 @@ SUBS = [
     Sub("conditional_ops", _pool_c, _strategy_c, _run_c, lambda c: _nontriv_idx(c["n"], c["idx"]),
         lambda c: [f"kind={c['kind']}", f"op={c['op']}", f"carrier={c['carrier']}"] + _labels_idx(c["n"], c["idx"]),
         examples={"quick": 120, "thorough": 600}, shards={"quick": 8, "thorough": 14}, rule="n>=2 and idx != identity"),
+    Sub("approx_truncated", _pool_a, _strategy_a, _run_a, lambda c: _nontriv_idx(c["n"], c["idx"]),
+        lambda c: [f"fam={c['fam']}", f"kind={c['kind']}", f"op={c['op']}"] + _labels_idx(c["n"], c["idx"]),
+        examples={"quick": 40, "thorough": 300}, shards={"quick": 6, "thorough": 10}, rule="n>=2 and idx != identity"),
     Sub("update", _pool_m, _strategy_u, _run_u, lambda c: c["R"] >= 2,
         lambda c: [f"kind={c['kind']}", f"k={len(c['uidx'])}", "neg" if any(i < 0 for i in c["uidx"]) else "nonneg"],
         examples={"quick": 80, "thorough": 400}, shards={"quick": 4, "thorough": 8}, rule="R>=2"),
